@@ -11,6 +11,7 @@ package redis
 // this directory are symlinks to ../redis (same table, same interpreter, same oracle).
 
 import (
+	"os"
 	"testing"
 	"time"
 
@@ -40,9 +41,15 @@ func TestVerif_C12_metrics(t *testing.T) {
 		t.Fatalf("prometheus agent not enabled")
 	}
 	c12Setup(t)
+	ran := 0
 	kit.Run(t, "C12", "wrapper-twin-metrics", kit.Opts{Quick: 300, Thorough: 16000}, c12MetricsGen,
-		func(c c12Case) kit.Verdict { return c12Interp(t, c) })
-	// the harness must really have driven the metrics side of the hook
+		func(c c12Case) kit.Verdict { ran++; return c12Interp(t, c) })
+	// the harness must really have driven the metrics side of the hook - judged only
+	// when this unit interpreted a whole generated run in this process (not in replay
+	// mode, where the file may belong to another rule, and not after a failure)
+	if os.Getenv("VERIF_REPLAY") != "" || ran < 50 || t.Failed() {
+		return
+	}
 	fams, err := prom.DefaultGatherer.Gather()
 	if err != nil {
 		t.Fatalf("gather: %v", err)
